@@ -21,10 +21,15 @@ func Spans(sdl []tracesdk.ReadOnlySpan) []*tracepb.ResourceSpans {
 		return nil
 	}
 
-	rsm := make(map[attribute.Distinct]*tracepb.ResourceSpans)
+	// A resource is identified by its attributes and its schema URL.
+	type resKey struct {
+		r   attribute.Distinct
+		url string
+	}
+	rsm := make(map[resKey]*tracepb.ResourceSpans)
 
 	type key struct {
-		r  attribute.Distinct
+		r  resKey
 		is instrumentation.Scope
 	}
 	ssm := make(map[key]*tracepb.ScopeSpans)
@@ -35,7 +40,7 @@ func Spans(sdl []tracesdk.ReadOnlySpan) []*tracepb.ResourceSpans {
 			continue
 		}
 
-		rKey := sd.Resource().Equivalent()
+		rKey := resKey{r: sd.Resource().Equivalent(), url: sd.Resource().SchemaURL()}
 		k := key{
 			r:  rKey,
 			is: sd.InstrumentationScope(),
